@@ -544,7 +544,9 @@ def one(seed, i, res):
                         ("wrong-start-value", ok_succeeded, dict(sf, nid=-5), ef, False),
                         ("missing-end-key", ok_succeeded, sf, dict(ef, no_such_key=1), False),
                         ("missing-end-key-none", ok_succeeded, sf, dict(ef, no_such_key=None), False),
-                        ("missing-start-key-none", ok_succeeded, dict(sf, no_such_key=None), ef, False)]
+                        ("missing-start-key-none", ok_succeeded, dict(sf, no_such_key=None), ef, False),
+                        # the expected outcome given as 1 / 0 (a 0/1 column of a test table, an int flag expression): equal to True / False
+                        ("true-subset-outcome-as-int", int(ok_succeeded), sf, ef, True), ("wrong-outcome-as-int", int(not ok_succeeded), sf, ef, False)]
             # a later action of the same type that would satisfy the wrong expectation must not rescue the assertion
             if len(want) >= 2 and "nid" in want[-1][0]["start"]:
                 later = want[-1][0]
